@@ -163,6 +163,10 @@ func evalC04(c string) Result {
 	rE := func(err error) string { return "err:" + showNetErr(err) }
 	switch f[0] {
 	case "C04.fromrev":
+		// (the sibling decoders see the same name first: none of them may leave anything behind)
+		_, _ = netutil.PrefixFromReversedAddr(s)
+		_, _ = netutil.ExtractReversedAddr(s)
+		_ = netutil.ValidateDomainName(s)
 		a, err := netutil.IPFromReversedAddr(s)
 		if err != nil {
 			cl := "trivial-reject"
@@ -217,7 +221,9 @@ func evalC04(c string) Result {
 		var err error
 		var want netip.Prefix
 		var wok bool
+		_, _ = netutil.IPFromReversedAddr(s)
 		if f[0] == "C05.prefix" {
+			_, _ = netutil.ExtractReversedAddr(s)
 			p, err = netutil.PrefixFromReversedAddr(s)
 			want, wok = specPrefix(s)
 		} else {
